@@ -195,10 +195,10 @@ func buildPlan(id string, pinned map[string]string, tier string) *Plan {
 		p.Units = append(p.Units, Unit{Pkg: "./accumulator/merkletree", Tags: "", Groups: []string{"readers"}})
 		p.Units = append(p.Units, Unit{Pkg: "./accumulator/merkletree", Tags: "", Groups: []string{"prove"}})
 		p.Trusted = []string{"CompressPoseidon2 is a deterministic function of its arguments (assumed contract)", "i >> n == 0 iff 0 <= i < 2^n (arithmetic fact used to read the index-range clause)",
-			"option functional-nested-slices (Open): rows read at indices that are not the same term are distinct objects (the function only reads them)", "accumulator: leafSum, nodeSum and bytes.Equal are opaque calls (captured at the call site); elements of the proof set are not modelled; loop-carried digests are fresh allocations"}
-		p.NotCovered = []string{"BuildMerkleTree: not under contract (rows written through a slice of slices, parallel.Execute); the well-formedness of the levels that Open requires (level l has 2^l nodes) is therefore a precondition, not a proved postcondition of the builder",
+			"BuildMerkleTree: nextPowerOfTwo (bit smearing) and log2Ceil are assumed contracts (only their ranges are used); parallel.Execute(n, work) executed as work(0, n)", "option functional-nested-slices (Open): rows read at indices that are not the same term are distinct objects (the function only reads them)", "accumulator: leafSum, nodeSum and bytes.Equal are opaque calls (captured at the call site); elements of the proof set are not modelled; loop-carried digests are fresh allocations"}
+		p.NotCovered = []string{"BuildMerkleTree: only the padding of the leaves, the number of levels and the frame are under contract; that level l holds the compressions of the pairs of level l+1 is not (rows written through a slice of slices), its index operations are not obligations, and the well-formedness of the levels that Open requires (level l has 2^l nodes) is a precondition of Open, not a proved postcondition of the builder",
 			"accumulator/merkletree: the tree builder (Push / PushSubTree, the siblings Prove collects) and the order in which VerifyProof combines siblings are not under contract (only totality and the acceptance-implies-check clauses are); of ReadAll only the ownership of the leaf buffers is"}
-		p.Note = "Vortex MerkleProof.Verify accepts iff fold(leaf, proof, i) == root and 0 <= i < 2^len(proof); tamper rejection follows with the compression function uninterpreted. Vortex MerkleTree.Open on a well-formed tree: an index outside 0..2^depth-1 (negative ones included) is refused with an error, nothing is indexed out of range, and the proof returned for index i has depth siblings, the k-th being node (i>>k)^1 of level depth-k (rows of the slice of slices read as functions of the row index). Accumulator VerifyProof is total for every proof length, index and leaf count (no index out of range, no division by zero) and accepts only if a root was given, the index is below the leaf count, the proof is non-empty and the final comparison against the given root succeeded. ReadAll hands Push (which keeps the slice it is given) a buffer allocated in the same iteration of the read loop, of at most the segment size, never a buffer that a later read fills again (io.ReadFull: assumed contract of the standard library). Prove does not modify the tree and returns a proof set backed by memory of its own (nothing the tree does later can change a proof that was handed out)."
+		p.Note = "Vortex MerkleProof.Verify accepts iff fold(leaf, proof, i) == root and 0 <= i < 2^len(proof); tamper rejection follows with the compression function uninterpreted. Vortex MerkleTree.Open on a well-formed tree: an index outside 0..2^depth-1 (negative ones included) is refused with an error, nothing is indexed out of range, and the proof returned for index i has depth siblings, the k-th being node (i>>k)^1 of level depth-k (rows of the slice of slices read as functions of the row index). Vortex BuildMerkleTree: the leaves the tree is built on are the given hashes followed by zero hashes up to the next power of two, the tree has depth+1 levels and the caller's slice is not written. Accumulator VerifyProof is total for every proof length, index and leaf count (no index out of range, no division by zero) and accepts only if a root was given, the index is below the leaf count, the proof is non-empty and the final comparison against the given root succeeded. ReadAll hands Push (which keeps the slice it is given) a buffer allocated in the same iteration of the read loop, of at most the segment size, never a buffer that a later read fills again (io.ReadFull: assumed contract of the standard library). Prove does not modify the tree and returns a proof set backed by memory of its own (nothing the tree does later can change a proof that was handed out)."
 		return p
 	case "C14":
 		p := &Plan{ID: id}
